@@ -83,9 +83,9 @@ type OrLabelMatcher struct {
 
 // Process implements Processor.
 func (m *OrLabelMatcher) Process(ts otelstorage.Timestamp, line string, set LabelSet) (_ string, keep bool) {
-	line, keep = m.Left.Process(ts, line, set)
-	if keep {
-		return line, keep
+	// Do not overwrite the line: left matcher may return an empty one, if it does not match.
+	if newLine, keep := m.Left.Process(ts, line, set); keep {
+		return newLine, keep
 	}
 	return m.Right.Process(ts, line, set)
 }
